@@ -227,6 +227,10 @@ def lifetime(params):
         agg = None
         gc.collect()
         try:
+            agg2.evaluate(a.copy(), a.copy(), "s0")   # resubmitted: already recorded, must not get a second row
+        except Exception as e:
+            pass
+        try:
             agg2.evaluate(a.copy(), a.copy(), "s1")
         except Exception as e:
             bad.append(f"after an older aggregator object was released, evaluate raised {type(e).__name__}: {e}"[:200])
